@@ -1,3 +1,5 @@
+#include <climits>
+
 #include "VM/include/program.hpp"
 #include "VM/include/vm.hpp"
 
@@ -112,10 +114,13 @@ bool VM::executeSingle() {
       // i.parameters.add.source << " + " << i.parameters.add.constant <<
       // std::endl;
       WordIndex base = this->stack.back().data_start;
-      this->data[base + i.parameters.add.target] =
-          std::max(this->data[base + i.parameters.add.source] +
-                       i.parameters.add.constant,
-                   0);
+      // computed in 64 bits: int + int may leave the word range;
+      // the result is clamped to [0, INT_MAX]
+      long long sum = (long long)this->data[base + i.parameters.add.source] +
+                      (long long)i.parameters.add.constant;
+      if (sum < 0) sum = 0;
+      if (sum > INT_MAX) sum = INT_MAX;
+      this->data[base + i.parameters.add.target] = (Word)sum;
       this->instruction_pointer++;
       break;
     }
